@@ -1,4 +1,5 @@
 """C07 - gradients through operators equal gradients through the dense computation."""
+import os
 import sys
 import warnings
 
@@ -530,7 +531,7 @@ def run_case(case, ctx):
     if iterative and not f64:
         ctx.stat("float32_iterative_not_judged")
         return
-    tol = (1e-2 * max(1.0, kappa / 20) if iterative else 1e-6 * max(1.0, kappa)) if f64 else 2e-2 * max(1.0, kappa / 10)
+    tol = (3e-2 * max(1.0, kappa / 20) if iterative else 1e-6 * max(1.0, kappa)) if f64 else 2e-2 * max(1.0, kappa / 10)
     if entry in ("sqrt_inv_matmul",):
         tol = max(tol, 1e-3 * max(1.0, kappa / 10))
     # tangent space of the symmetric manifold (entry points that are only defined on symmetric matrices)
@@ -565,6 +566,8 @@ def run_case(case, ctx):
         glib = [None if a is None else (a * masks[id(w)] if id(w) in masks else a) for a, w in zip(glib, wrt)]
         gref = [None if a is None else (a * masks[id(w)] if id(w) in masks else a) for a, w in zip(gref, wrt)]
     interp_leaves = {id(leaves[li]) for li in interp_leaf_idx}
+    # a gradient that vanishes by cancellation is judged on the scale of the quantities it is formed from, not on its own
+    gfloor = (1e-3 if not f64 else 1e-9) * float(W.abs().max()) * max(1.0, float(lib.detach().abs().max()))
     worst = 0.0
     gl_leaf, gr_leaf = [], []
     names = [f"leaf{i}" for i, f in enumerate(flags) if f] + ["rhs"] * (len(wrt) - nleaf)
@@ -578,17 +581,19 @@ def run_case(case, ctx):
             gl_leaf.append(a.reshape(-1).to(torch.float64))
             gr_leaf.append(r_.reshape(-1).to(torch.float64))
             continue
-        sc = max(float(r_.abs().max()), 1e-6 * float(W.abs().max()))
+        sc = max(float(r_.abs().max()), gfloor)
         err = float((a.to(torch.float64) - r_.to(torch.float64)).abs().max()) / sc
         worst = max(worst, err) if err == err else float("nan")
         if not err <= tol:
+            if os.environ.get("LOMON_DEBUG"):
+                print("DEBUG", nm, tuple(w.shape), "lib", a.flatten()[:8].tolist(), "ref", r_.flatten()[:8].tolist(), "rshape", tuple(R.shape), "out", tuple(lib.shape))
             ctx.fail(entry, "grad-value", err=err, detail=f"gradient w.r.t. {nm} differs from the dense computation's by {err:.2e} (tol {tol:.1e})",
                      **dict(kw, tags=set(tags) | {"wrt:" + ("rhs" if nm == "rhs" else "leaf")} | ({"nested_interp_values"} if id(w) in interp_leaves else set()) | ({"lib_grad_zero"} if float(a.abs().max()) == 0 else set()), info=kw["info"] | {f"expanded_leaves:{n_exp}", "flags:" + "".join("1" if f else "0" for f in flags)}))
             return
     if gl_leaf and not isinstance(proj, str):
         a = proj.mT @ torch.cat(gl_leaf)
         r_ = proj.mT @ torch.cat(gr_leaf)
-        sc = max(float(r_.abs().max()), 1e-6 * float(W.abs().max()))
+        sc = max(float(r_.abs().max()), gfloor)
         err = float((a - r_).abs().max()) / sc
         worst = max(worst, err) if err == err else float("nan")
         if not err <= tol:
